@@ -105,6 +105,15 @@ func (p *printer) space() {
 
 func (p *printer) newline() {
 	p.w.WriteByte('\n')
+	// here-documents begin after the next newline
+	for i, list := range p.stack {
+		for _, r := range list {
+			p.word(r.Heredoc)
+			p.word(r.Delim)
+			p.w.WriteByte('\n')
+		}
+		p.stack[i] = nil
+	}
 }
 
 func (p *printer) print(n ast.Node) (err error) {
@@ -562,8 +571,14 @@ func (p *printer) heredoc() {
 	// pop
 	list := p.stack[len(p.stack)-1]
 	p.stack = p.stack[:len(p.stack)-1]
-	for _, r := range list {
-		p.newline()
+	if len(list) == 0 {
+		return
+	}
+	p.newline()
+	for i, r := range list {
+		if i > 0 {
+			p.w.WriteByte('\n')
+		}
 		p.word(r.Heredoc)
 		p.word(r.Delim)
 	}
@@ -632,6 +647,9 @@ func (p *printer) cmdSubst(w *ast.CmdSubst) {
 	} else {
 		p.w.WriteByte('`')
 	}
+	// here-documents of the enclosing command begin after its own newline
+	stack := p.stack
+	p.stack = [][]*ast.Redir{nil}
 	if len(w.List) > 1 || w.Left.Line() != w.Right.Line() {
 		p.compoundList(w.List)
 		p.newline()
@@ -639,6 +657,7 @@ func (p *printer) cmdSubst(w *ast.CmdSubst) {
 	} else {
 		p.command(w.List[0])
 	}
+	p.stack = stack
 	if w.Dollar {
 		p.w.WriteByte(')')
 	} else {
